@@ -185,11 +185,61 @@ Qed.
 Lemma inv_init : Inv init.
 Proof. constructor; unfold tot, live; cbn; try lia; auto. all: try (intros rd []). Qed.
 
+(** ** The constructor's initial state for any initialBlocksCount *)
+Lemma promote_sum g : forall n x n' x', promote n g x = (n', x') ->
+  Z.of_nat n' + (x' - x) = Z.of_nat n /\ x <= x'.
+Proof.
+  induction n as [|n IH]; intros x n' x' H; cbn [promote] in H.
+  - injection H as <- <-. lia.
+  - destruct (g x).
+    + apply IH in H. lia.
+    + injection H as <- <-. lia.
+Qed.
+
+Lemma promote_ext g g' : (forall x, g x = g' x) -> forall n x, promote n g x = promote n g' x.
+Proof.
+  intros E. induction n as [|n IH]; intros x; cbn [promote]; [reflexivity|]. rewrite <- E.
+  destruct (g x); [apply IH|reflexivity].
+Qed.
+
+(** the shape of [init_of c], with the sums the loops preserve *)
+Lemma init_of_shape c : exists o cu nw,
+  let t := if q_old c <? o then o - q_old c else 0 in
+  init_of c = {| rel := 0; tbr := t; old := o; cur := cu; new := nw;
+                 blocks := repeat (q_pb c) (Z.to_nat (q_init c)); att := 0; aidx := -1;
+                 rdrs := []; puts := []; pcs := Idle; maxdet := t; pstart := 0 |}
+  /\ 0 <= o /\ 0 <= cu /\ 0 <= nw /\ o + cu + nw = Z.of_nat (Z.to_nat (q_init c)).
+Proof.
+  unfold init_of.
+  destruct (promote (Z.to_nat (q_init c)) (fun x => grow_new c 0 x) 0) as [n1 nw] eqn:E1.
+  destruct (promote n1 (grow_cur c) 0) as [n2 cu] eqn:E2.
+  apply promote_sum in E1. apply promote_sum in E2.
+  exists (Z.of_nat n2), cu, nw. cbv zeta. split; [reflexivity|]. lia.
+Qed.
+
+(** [0 <= desiredOldBlocksCount]: otherwise the constructor asks for the
+    release of more blocks than exist. *)
+Definition wf0 (c : qcfg) : Prop := 0 <= q_old c.
+
+Lemma inv_init_of c : wf0 c -> Inv (init_of c).
+Proof.
+  intros Hq. destruct (init_of_shape c) as (o & cu & nw & E & Ho & Hcu & Hnw & Hsum). cbv zeta in E.
+  rewrite E. unfold wf0 in Hq.
+  constructor; unfold tot, live; flds; rewrite ?repeat_length; auto; try (intros rd []);
+    destruct (q_old c <? o) eqn:Eq; try apply Z.ltb_lt in Eq; try apply Z.ltb_ge in Eq; lia.
+Qed.
+
+Lemma init_of_0 c : q_init c <= 0 -> wf0 c -> init_of c = init.
+Proof.
+  intros Hn Hq. unfold init_of. replace (Z.to_nat (q_init c)) with O by lia. cbn [promote repeat Z.of_nat].
+  unfold wf0 in Hq. destruct (q_old c <? 0) eqn:E; [apply Z.ltb_lt in E; lia|reflexivity].
+Qed.
+
 Lemma inv_run c es : forall st, Inv st -> Inv (run_evs c st es).
 Proof. induction es as [|e t IH]; intros st H; cbn [run_evs fold_left]; [exact H|]. apply IH, inv_step, H. Qed.
 
-Theorem inv_reach c es : Inv (run_evs c init es).
-Proof. apply inv_run, inv_init. Qed.
+Theorem inv_reach c es : wf0 c -> Inv (run_evs c (init_of c) es).
+Proof. intros Hq. apply inv_run, inv_init_of, Hq. Qed.
 
 (** ** Monotonicity *)
 Record Mono (a b : qst) : Prop := {
@@ -248,17 +298,19 @@ Qed.
     lock) and never above what ordinary rotation and the detections justify;
     every detection is honoured. *)
 Lemma boundary_justified_reach c es :
-  let st := run_evs c init es in
+  wf0 c ->
+  let st := run_evs c (init_of c) es in
   rel st <= tbr st + (if is_raise (pcs st) then 1 else 0)
   /\ tbr st <= Z.max (rel st) (maxdet st) /\ maxdet st <= tbr st.
-Proof. intro st. pose proof (inv_reach c es) as H. split; [|split]; apply H. Qed.
+Proof. intros Hq st. pose proof (inv_reach c es Hq) as H. split; [|split]; apply H. Qed.
 
 (** The catch-up loop never pops an empty list. *)
 Lemma catch_up_has_blocks_reach c es sz snap :
-  let st := run_evs c init es in
+  wf0 c ->
+  let st := run_evs c (init_of c) es in
   pcs st = PCatch sz snap -> rel st < snap -> blocks st <> [].
 Proof.
-  intros st Epc Hlt. pose proof (inv_reach c es) as H. fold st in H.
+  intros Hq st Epc Hlt. pose proof (inv_reach c es Hq) as H. fold st in H.
   pose proof (i_pc _ H) as Hp. rewrite Epc in Hp.
   pose proof (i_hi _ H). pose proof (i_detlive _ H). pose proof (i_lo _ H) as Hlo. rewrite Epc in Hlo. flds.
   unfold tot, live in *. intros E. rewrite E in *. cbn [length] in *. lia.
@@ -266,10 +318,11 @@ Qed.
 
 (** A live block newer than every detected block is not hidden. *)
 Lemma newer_never_hidden_reach c es i :
-  let st := run_evs c init es in
+  wf0 c ->
+  let st := run_evs c (init_of c) es in
   is_raise (pcs st) = false -> 0 <= i -> maxdet st <= rel st + i -> hidden st i = false.
 Proof.
-  intros st Hr Hi Hm. pose proof (inv_reach c es) as H. fold st in H.
+  intros Hq st Hr Hi Hm. pose proof (inv_reach c es Hq) as H. fold st in H.
   pose proof (i_lo _ H) as Hlo. rewrite Hr in Hlo. pose proof (i_hi _ H).
   unfold hidden. destruct (tbr st <? rel st) eqn:E; [apply Z.ltb_lt in E; lia|].
   apply Z.ltb_ge. lia.
@@ -277,13 +330,14 @@ Qed.
 
 (** A detected block and all older ones are hidden from the callback on, for ever. *)
 Lemma detected_hidden_at_once_reach c es r rd es' i :
-  let st := run_evs c init es in
+  wf0 c ->
+  let st := run_evs c (init_of c) es in
   nth_error (rdrs st) r = Some rd -> r_open rd = true -> r_bad rd = true ->
   let st' := run_evs c (detect st r) es' in
   r_tgt rd <= tbr st' /\ (rel st' + i < r_tgt rd -> hidden st' i = true).
 Proof.
-  intros st En Eo Eb st'.
-  pose proof (inv_reach c es) as H. fold st in H.
+  intros Hq st En Eo Eb st'.
+  pose proof (inv_reach c es Hq) as H. fold st in H.
   pose proof (mono_run c es' _ (inv_detect st r H)) as M. fold st' in M.
   assert (Ht : r_tgt rd <= tbr (detect st r)).
   { unfold detect. rewrite En, Eo, Eb. flds. lia. }
@@ -294,13 +348,14 @@ Qed.
 (** Every block quarantined when a Put() is entered has been released when
     that Put() hands out its writer. *)
 Lemma released_by_next_put_reach c es sz es' idx :
-  let st := run_evs c init es in
+  wf0 c ->
+  let st := run_evs c (init_of c) es in
   pcs st = Idle ->
   let st' := run_evs c (start st sz) es' in
   pcs st' = PDone 0 idx -> tbr st <= rel st'.
 Proof.
-  intros st Epc st' Ed.
-  pose proof (inv_reach c es) as H. fold st in H.
+  intros Hq st Epc st' Ed.
+  pose proof (inv_reach c es Hq) as H. fold st in H.
   pose proof (inv_start st sz H) as H1.
   pose proof (inv_run c es' _ H1) as H2. fold st' in H2.
   pose proof (mono_run c es' _ H1) as M. fold st' in M.
@@ -313,7 +368,14 @@ Qed.
 Definition capq (c : qcfg) : Z := q_old c + q_cur c + (if q_mut c then 1 else q_new c).
 
 Record Cap (c : qcfg) (st : qst) : Prop := {
-  c_old : old st <= q_old c + (match pcs st with PPop _ => 1 | _ => 0 end);
+  (* the "old" blocks above desiredOldBlocksCount are those the constructor quarantined:
+     gone when the catch-up loop of the first Put() is through *)
+  c_old : old st <= q_old c + (match pcs st with
+                               | Idle | PStart _ | PDone _ _ => Z.max 0 (tbr st - rel st)
+                               | PCatch _ snap => Z.max 0 (snap - rel st)
+                               | PPop _ => 1
+                               | _ => 0
+                               end);
   c_grown : match pcs st with
             | PSpace _ | PPush _ | PPop _ | PRaise _ | PAlloc _ => grow_new c (cur st) (new st) = false
             | _ => True end;
@@ -324,13 +386,14 @@ Definition wfq (c : qcfg) : Prop := 0 <= q_old c /\ 0 <= q_cur c /\ 1 <= q_new c
 
 Lemma cap_put_step c st : wfq c -> Inv st -> Cap c st -> Cap c (put_step c st).
 Proof.
-  intros (Hq0 & Hwc & Hw) HI [Ho Hg Hp]. unfold put_step.
+  intros (Hq0 & Hwc & Hw) HI [Ho Hg Hp]. pose proof (i_pc _ HI) as Hpc. unfold put_step.
   destruct (pcs st) eqn:Epc; flds.
   - constructor; rewrite Epc; auto.
   - destruct (q_bs c <? sz); constructor; flds; auto; lia.
-  - destruct (rel st <? snap); [|constructor; flds; auto; lia].
+  - destruct Hpc as [Hsn _].
+    destruct (rel st <? snap) eqn:Elt; [apply Z.ltb_lt in Elt|apply Z.ltb_ge in Elt; constructor; flds; auto; lia].
     destruct (blocks st); [constructor; flds; auto; lia|].
-    destruct (0 <? old st) eqn:Eo; [|destruct (0 <? cur st)];
+    destruct (0 <? old st) eqn:Eo; [apply Z.ltb_lt in Eo|apply Z.ltb_ge in Eo; destruct (0 <? cur st)];
       constructor; flds; rewrite ?Epc; auto; lia.
   - destruct (grow_new c (cur st) (new st)) eqn:Eg; constructor; flds; rewrite ?Epc; auto; lia.
   - destruct (has_space c st (old st + cur st) sz) as [[|]|]; [| |constructor; flds; auto; lia].
@@ -343,16 +406,24 @@ Proof.
       unfold grow_new, grow_cur in *. destruct (q_mut c); [exact Hg|discriminate].
     + apply Z.ltb_lt in Eq. constructor; flds; auto; try lia. split; [assumption|lia].
     + apply Z.ltb_ge in Eq. constructor; flds; auto; try lia.
-  - destruct (blocks st) eqn:Ebl; constructor; flds; auto; try lia.
-    exfalso. destruct Hp as [Hgc Hold]. pose proof (i_sum _ HI) as Hs. unfold live in Hs. rewrite Ebl in Hs.
-    cbn [length] in Hs. unfold grow_new, grow_cur in *. destruct (q_mut c).
-    + apply Z.ltb_ge in Hg. apply Z.ltb_ge in Hgc. lia.
-    + apply Z.ltb_ge in Hg. lia.
+  - destruct Hp as [Hgc Hold]. destruct (blocks st) eqn:Ebl.
+    + exfalso. pose proof (i_sum _ HI) as Hs. unfold live in Hs. rewrite Ebl in Hs.
+      cbn [length] in Hs. unfold grow_new, grow_cur in *. destruct (q_mut c).
+      * apply Z.ltb_ge in Hg. apply Z.ltb_ge in Hgc. lia.
+      * apply Z.ltb_ge in Hg. lia.
+    + constructor; flds; auto; lia.
   - constructor; flds; auto; lia.
   - destruct (alloc_loop (alloc_fuel st) c st sz) as [st1 i] eqn:Eal.
     apply alloc_loop_frame in Eal. destruct Eal as (a & j & ->).
     destruct (i <? 0); constructor; flds; auto; lia.
   - constructor; rewrite Epc; auto.
+Qed.
+
+Lemma cap_detect c st r : Cap c st -> Cap c (detect st r).
+Proof.
+  intros H. unfold detect. destruct (nth_error (rdrs st) r) as [rd|]; [|exact H].
+  destruct (r_open rd); [|exact H]. destruct H as [Ho Hg Hp].
+  destruct (r_bad rd); constructor; flds; auto. destruct (pcs st); lia.
 Qed.
 
 Lemma cap_step c st e : wfq c -> Inv st -> Cap c st -> Cap c (step c st e).
@@ -364,9 +435,7 @@ Proof.
   - unfold finish. destruct (pcs st) eqn:Epc; try exact H. destruct H as [Ho Hg Hp]. rewrite Epc in *.
     constructor; flds; auto.
   - unfold open. destruct H as [Ho Hg Hp]. destruct (can_open st k); constructor; flds; auto.
-  - unfold detect. destruct (nth_error (rdrs st) r) as [rd|]; [|exact H].
-    destruct (r_open rd); [|exact H]. destruct H as [Ho Hg Hp].
-    destruct (r_bad rd); constructor; flds; auto.
+  - apply cap_detect, H.
 Qed.
 
 Lemma cap_run c es : wfq c -> forall st, Inv st -> Cap c st -> Cap c (run_evs c st es).
@@ -377,6 +446,12 @@ Qed.
 
 Lemma cap_init c : wfq c -> Cap c init.
 Proof. intros [H _]. constructor; cbn; auto. lia. Qed.
+
+Lemma cap_init_of c : Cap c (init_of c).
+Proof.
+  destruct (init_of_shape c) as (o & cu & nw & E & Ho & Hcu & Hnw & Hsum). cbv zeta in E. rewrite E.
+  constructor; flds; auto. destruct (q_old c <? o) eqn:Eq; [apply Z.ltb_lt in Eq|apply Z.ltb_ge in Eq]; lia.
+Qed.
 
 Lemma rotation_pop_over_capacity c st sz :
   Inv st -> Cap c st -> pcs st = PPop sz -> capq c + 1 <= live st.
@@ -393,14 +468,14 @@ Qed.
     that is above its configured capacity. *)
 Lemma release_justified_reach c es :
   wfq c ->
-  let st := run_evs c init es in
+  let st := run_evs c (init_of c) es in
   rel (put_step c st) <> rel st ->
   rel (put_step c st) = rel st + 1
   /\ (rel st < maxdet st \/ (exists sz, pcs st = PPop sz) /\ capq c + 1 <= live st).
 Proof.
   intros Hq st Hne.
-  pose proof (inv_reach c es) as HI. fold st in HI.
-  pose proof (cap_run c es Hq _ inv_init (cap_init c Hq)) as HC. fold st in HC.
+  pose proof (inv_reach c es (proj1 Hq)) as HI. fold st in HI.
+  pose proof (cap_run c es Hq _ (inv_init_of c (proj1 Hq)) (cap_init_of c)) as HC. fold st in HC.
   revert Hne. unfold put_step.
   destruct (pcs st) eqn:Epc; flds; try (intros Hne; exfalso; apply Hne; reflexivity).
   - destruct (q_bs c <? sz); flds; intros Hne; exfalso; apply Hne; reflexivity.
